@@ -194,6 +194,10 @@ def build():
             return getattr(threading, n)
     LM.threading = FakeThreading()
     NM.threading = LM.threading
+    import yowsup.layers.protocol_iq.layer as IQM
+    if not hasattr(IQM, "_verif_real_lock"):
+        IQM._verif_real_lock = IQM.Lock
+    IQM.Lock = LM.threading.Lock               # the keep-alive's bookkeeping lock is a recording one too
     layers = YowStackBuilder.getDefaultLayers() + (App,)
     st = YowStack(layers, reversed=False)
     n = len(layers)
@@ -238,7 +242,7 @@ def _seg(frame):
 DOWN_FAULTS = ("unencodable-value", "oversize-frame", "no-transport-session", "send-while-the-handshake-is-in-progress", "socket-write-fails", "interrupted-during-socket-write", "connection-found-dead-during-write")
 SILENT = ("connection-found-dead-during-write",)          # the caller sees no exception: the disconnect is announced by an event instead
 UP_FAULTS = ("undecryptable-frame", "undecodable-frame", "rejected-stanza", "application-callback-raises", "key-request-for-incoming-message-fails-below",
-             "incoming-frame-while-session-not-ready", "application-callback-raises-on-keepalive-pong")
+             "incoming-frame-while-session-not-ready", "application-callback-raises-on-keepalive-pong", "keep-alive-times-out")
 
 
 def _do_send_ok(top, disp):
@@ -342,6 +346,26 @@ def _inject_fault(ctx, kind, st, insts, disp, net, noise, top):
             iq.sendIq(ping)
             top.fail_next = True
             net.receive(_seg(_frame(N("iq", {"id": ping.getId(), "type": "result", "from": "s.whatsapp.net"}))))
+        elif kind == "keep-alive-times-out":
+            # two keep-alive periods without an answer: the iq layer asks for the connection to be closed (from the keep-alive's thread);
+            # the close is a fault the stack must survive like any other: nothing blocks, later operations work after the reconnect
+            from yowsup.layers.protocol_iq.protocolentities import PingIqProtocolEntity
+            iq = _iq_layer(insts)
+            nd = disp.disconnects
+
+            class KeepAliveThread(object):          # the thread object the layer keeps while logged in (its body is what this fault plays)
+                def stop(self_):
+                    pass
+            iq._pingThread = KeepAliveThread()
+            for _ in range(2):
+                ping = PingIqProtocolEntity()
+                iq.waitPong(ping.getId())
+                iq.sendIq(ping)
+            _run_detached(st)
+            if disp.disconnects == nd:
+                return None
+            net.connected, net.state = True, net.STATE_CONNECTED      # the application's reconnect
+            return RuntimeError("connection closed by the keep-alive (Ping Timeout)")
         elif kind == "undecryptable-frame":
             net.receive(_seg(b"CORRUPT ciphertext whose tag does not verify"))
         elif kind == "undecodable-frame":
@@ -576,6 +600,13 @@ def h_reconnect(ctx, n, prefix=()):
             or "peer of connection" in l or "drains" in l]
 
 
+def h_reconnect_blocking(ctx, n):
+    """the same for the library's other dispatcher (blocking socket dispatcher): whatever ends a connection -- incl. an upper layer raising
+    on an incoming chunk -- it is announced down, the layer is disconnected and a later connect request works"""
+    from checks import c16
+    return c16.h_network_blocking(ctx, n)
+
+
 def finding_key(case, label, values, where):
     kind = case[case.index("[") + 1:case.index(",")] if "," in case else case
     if "lock" not in label and "block" not in label:
@@ -592,4 +623,5 @@ def cases(tier):
     return [dict(name="fault[%s,ops=%d]" % (k, n_ops), fn=h_fault, args=(k, n_ops), keep_samples=12) for k in DOWN_FAULTS + UP_FAULTS] + \
            [dict(name="two-flushers[handshake worker + network thread, one pre-emption]", fn=h_two_flushers, keep_samples=40),
             dict(name="reconnect[real network layer and dispatcher,len<=%d]" % (4 if tier == "quick" else 6), fn=h_reconnect, args=(4 if tier == "quick" else 6,), max_paths=400000, timeout_s=900),
+            dict(name="reconnect[socket dispatcher,2 connections,<=2 incoming]", fn=h_reconnect_blocking, args=(2,), max_paths=200000, timeout_s=900, keep_samples=12),
             dict(name="reconnect[after a send that met back-pressure,len<=6]", fn=h_reconnect, args=(6, ("connect-request", "connect-completes", "send")), max_paths=400000, timeout_s=900)]
